@@ -72,14 +72,14 @@ package basicnode
 //@ func (*plainMap__Builder).Reset()
 //@   requires nb != nil
 //@   assigns nb.plainMap__Assembler
-//@   ensures[C11] fresh(nb.plainMap__Assembler.w) && nb.plainMap__Assembler.state == maState_initial
+//@   ensures[C01,C11] fresh(nb.plainMap__Assembler.w) && nb.plainMap__Assembler.state == maState_initial && nb.plainMap__Assembler.w.t == nil && nb.plainMap__Assembler.w.m == nil
 //@   ensures[C11] nb.plainMap__Assembler.ka.ma == nil && nb.plainMap__Assembler.va.ma == nil
 
 //@ func (*plainMap__Assembler).BeginMap(sizeHint) (ma, err)
 //@   requires na != nil && na.w != nil && na.state == maState_initial && sizeHint <= 4611686018427387904
 //@   assigns na.w.t, na.w.m
 //@   ensures[C01,C12] err == nil && ma == iface(na) && wip(na) && len(na.w.t) == 0 && na.state == maState_initial
-//@   ensures[C11] fresh(na.w.t) && fresh(na.w.m)
+//@   ensures[C01,C11] fresh(na.w.t) && fresh(na.w.m)
 
 //@ func (*plainMap__Assembler).AssembleEntry(k) (va, err)
 //@   requires wip(ma) && ma.state == maState_initial
@@ -220,13 +220,14 @@ package basicnode
 //@ func (*plainList__Builder).Reset()
 //@   requires nb != nil
 //@   assigns nb.plainList__Assembler
-//@   ensures[C11] fresh(nb.plainList__Assembler.w) && nb.plainList__Assembler.state == laState_initial && nb.plainList__Assembler.va.la == nil
+//@   ensures[C01,C11] fresh(nb.plainList__Assembler.w) && nb.plainList__Assembler.state == laState_initial && nb.plainList__Assembler.va.la == nil
+//@   ensures[C01,C11] len(nb.plainList__Assembler.w.x) == 0 && nb.plainList__Assembler.w.x == nil
 
 //@ func (*plainList__Assembler).BeginList(sizeHint) (la, err)
 //@   requires na != nil && na.w != nil && na.state == laState_initial && sizeHint <= 4611686018427387904
 //@   assigns na.w.x
 //@   ensures[C01,C12] err == nil && la == iface(na) && listwip(na) && len(na.w.x) == 0 && na.state == laState_initial
-//@   ensures[C11] fresh(na.w.x)
+//@   ensures[C01,C11] fresh(na.w.x)
 
 //@ func (*plainList__Assembler).AssembleValue() (va)
 //@   requires listwip(la) && la.state == laState_initial
@@ -258,3 +259,73 @@ package basicnode
 //@   ensures[C01,C12] err == nil && la.ca.w == nil && la.ca.state == laState_finished && la.p.state == laState_initial && listwip(la.p)
 //@   ensures[C01,C12] len(la.p.w.x) == old(len(la.p.w.x)) + 1 && la.p.w.x[len(la.p.w.x)-1] == iface(old(la.ca.w))
 //@   ensures[C11] la.p.va.la == nil
+
+// ---- remaining lookup forms agree with LookupByString / LookupByIndex ----
+
+//@ func (*plainMap).LookupBySegment(seg) (r, err)
+//@   requires mapinv(n, len(n.t))
+//@   assigns nothing
+//@   ensures[C01] indom(n.m, datamodel.segstr(seg)) ==> err == nil && r == n.m[datamodel.segstr(seg)]
+//@   ensures[C01] !indom(n.m, datamodel.segstr(seg)) ==> r == nil && iserr(err, "datamodel.ErrNotExists")
+
+//@ func (*plainMap).LookupByNode(key) (r, err)
+//@   requires mapinv(n, len(n.t)) && key != nil
+//@   assigns nothing
+//@   ensures[C01] datamodel.vkind(key.val) == datamodel.Kind_String && indom(n.m, datamodel.vstr(key.val)) ==> err == nil && r == n.m[datamodel.vstr(key.val)]
+//@   ensures[C01] datamodel.vkind(key.val) == datamodel.Kind_String && !indom(n.m, datamodel.vstr(key.val)) ==> r == nil && iserr(err, "datamodel.ErrNotExists")
+//@   ensures[C01] datamodel.vkind(key.val) != datamodel.Kind_String ==> r == nil && err != nil
+
+//@ func (*plainList).LookupBySegment(seg) (r, err)
+//@   requires n != nil
+//@   assigns nothing
+//@   ensures[C01] seg.i >= 0 && seg.i < len(n.x) ==> err == nil && r == n.x[seg.i]
+//@   ensures[C01] seg.i >= len(n.x) ==> r == nil && iserr(err, "datamodel.ErrNotExists")
+
+// ---- the "any" builder: Reset drops every reference to what was built before ----
+
+//@ func (Prototype__Any).NewBuilder() (nb)
+//@   ensures[C01,C11] fresh(nb) && dyntype(nb, "*anyBuilder") && unbox(nb, "*anyBuilder").kind == datamodel.Kind_Invalid
+
+//@ func (*anyBuilder).Reset()
+//@   requires nb != nil
+//@   assigns *nb
+//@   ensures[C01,C11] nb.kind == datamodel.Kind_Invalid && nb.scalarNode == nil
+//@   ensures[C01,C11] nb.mapBuilder.plainMap__Assembler.w == nil && nb.listBuilder.plainList__Assembler.w == nil
+//@   ensures[C01,C11] nb.mapBuilder.plainMap__Assembler.state == maState_initial && nb.listBuilder.plainList__Assembler.state == laState_initial
+
+//@ func (*anyBuilder).BeginMap(sizeHint) (ma, err)
+//@   requires nb != nil && nb.kind == datamodel.Kind_Invalid && nb.mapBuilder.plainMap__Assembler.state == maState_initial && sizeHint <= 4611686018427387904
+//@   assigns nb.kind, nb.mapBuilder.plainMap__Assembler.w
+//@   ensures[C01,C11] err == nil && nb.kind == datamodel.Kind_Map && fresh(nb.mapBuilder.plainMap__Assembler.w) && ma == iface(&nb.mapBuilder.plainMap__Assembler)
+//@   ensures[C01,C12] wip(&nb.mapBuilder.plainMap__Assembler) && len(nb.mapBuilder.plainMap__Assembler.w.t) == 0 && fresh(nb.mapBuilder.plainMap__Assembler.w.t) && fresh(nb.mapBuilder.plainMap__Assembler.w.m)
+
+//@ func (*anyBuilder).BeginList(sizeHint) (la, err)
+//@   requires nb != nil && nb.kind == datamodel.Kind_Invalid && nb.listBuilder.plainList__Assembler.state == laState_initial && sizeHint <= 4611686018427387904
+//@   assigns nb.kind, nb.listBuilder.plainList__Assembler.w
+//@   ensures[C01,C11] err == nil && nb.kind == datamodel.Kind_List && fresh(nb.listBuilder.plainList__Assembler.w) && la == iface(&nb.listBuilder.plainList__Assembler)
+//@   ensures[C01,C12] listwip(&nb.listBuilder.plainList__Assembler) && len(nb.listBuilder.plainList__Assembler.w.x) == 0 && fresh(nb.listBuilder.plainList__Assembler.w.x)
+
+//@ func (*anyBuilder).Build() (n)
+//@   requires nb != nil && nb.kind != datamodel.Kind_Invalid
+//@   requires nb.kind == datamodel.Kind_Map ==> nb.mapBuilder.plainMap__Assembler.state == maState_finished
+//@   requires nb.kind == datamodel.Kind_List ==> nb.listBuilder.plainList__Assembler.state == laState_finished
+//@   requires nb.kind == datamodel.Kind_Map || nb.kind == datamodel.Kind_List || nb.kind == datamodel.Kind_Null || nb.kind == datamodel.Kind_Bool || nb.kind == datamodel.Kind_Int || nb.kind == datamodel.Kind_Float || nb.kind == datamodel.Kind_String || nb.kind == datamodel.Kind_Bytes || nb.kind == datamodel.Kind_Link || nb.kind == 99
+//@   assigns nothing
+//@   ensures[C01,C12] nb.kind == datamodel.Kind_Map ==> n == iface(nb.mapBuilder.plainMap__Assembler.w)
+//@   ensures[C01,C12] nb.kind == datamodel.Kind_List ==> n == iface(nb.listBuilder.plainList__Assembler.w)
+//@   ensures[C01,C12] nb.kind != datamodel.Kind_Map && nb.kind != datamodel.Kind_List && nb.kind != datamodel.Kind_Null ==> n == nb.scalarNode
+
+//@ func (*anyBuilder).AssignInt(v) (err)
+//@   requires nb != nil && nb.kind == datamodel.Kind_Invalid
+//@   assigns nb.kind, nb.scalarNode
+//@   ensures[C01,C12] err == nil && nb.kind == datamodel.Kind_Int && fresh(nb.scalarNode) && dyntype(nb.scalarNode, "*plainInt") && *unbox(nb.scalarNode, "*plainInt") == v
+
+//@ func (*anyBuilder).AssignString(v) (err)
+//@   requires nb != nil && nb.kind == datamodel.Kind_Invalid
+//@   assigns nb.kind, nb.scalarNode
+//@   ensures[C01,C12] err == nil && nb.kind == datamodel.Kind_String && fresh(nb.scalarNode) && dyntype(nb.scalarNode, "*plainString") && *unbox(nb.scalarNode, "*plainString") == v
+
+//@ func (*anyBuilder).AssignNode(v) (err)
+//@   requires nb != nil && nb.kind == datamodel.Kind_Invalid
+//@   assigns nb.kind, nb.scalarNode
+//@   ensures[C01,C12] err == nil && nb.kind == 99 && nb.scalarNode == v
